@@ -352,6 +352,12 @@ pub fn witnesses() -> Vec<(&'static str, &'static str)> {
         ("ok", "interface org.example.w\nmethod Union() -> ()\nmethod Default() -> ()\nmethod Call(a: int) -> (b: int)\n"),
         ("ok", "interface org.example.w\ntype Into (a: int)\ntype Some (x, y)\ntype Call (Foo: int)\nmethod Foo(i: Into, s: Some) -> (c: ?Call)\n"),
         ("ok", "interface org.example.w\nerror OnlyAnError (a: int)\n"),
+        // interface names over the whole grammar rule: later labels starting with a digit, inner (double) hyphens,
+        // single-character labels, many labels, upper case
+        ("ok", "interface org.7zip.archive\nmethod Pack(name: string, level: ?int) -> (size: int)\nerror Full (free: int)\n"),
+        ("ok", "interface org.example-2.archive-v2\nmethod Pack(name: string) -> (size: int)\nerror Full (free: int)\n"),
+        ("ok", "interface a.b\nmethod M(x: int) -> (y: int)\n"),
+        ("ok", "interface X--y.9.Z-0.q.UPPER.l0-w--3r\ntype T (a: int)\nmethod Get(t: T) -> (t: ?T)\nerror E9 ()\n"),
         ("ok", "interface org.example.tags\ntype Tagged (name: string, tags: [string](), groups: [][string](), maybe: ?[string](), byname: [string][string]())\nmethod Tag(tags: [string]()) -> (tags: [string]())\nmethod Merge(sets: [][string](), extra: ?[string](), t: Tagged) -> (all: [string](), t: ?Tagged)\nerror Bad (seen: [string]())\n"),
         ("not-well-formed", "interface org.example.w\nmethod Foo(a: int, a: int) -> ()\n"),
         ("not-well-formed", "interface org.example.w\nmethod Foo(e: Nope) -> ()\n"),
